@@ -142,7 +142,7 @@ def run(tier, res, force_search=False):
     lean_ok = C.lean_phase(res, PROP, GEN, TARGETS)
 
     n_kernel = 60 if tier == "quick" else 400
-    n_skel = 48 if tier == "quick" else 192
+    n_skel = 60 if tier == "quick" else 240
     if force_search or not lean_ok:
         n_kernel *= 3
 
